@@ -88,14 +88,21 @@ func TestC08_RefreshInFlight(t *testing.T) {
 				// in-flight window to probe in this tree; the end-of-case checks still apply
 				trace = append(trace, "refresh did not park")
 			}
+			ended := false
 			for _, g := range gaps {
 				time.Sleep(g)
+				// the refresh has its own 5 s budget: let whatever is due at this very
+				// instant finish before looking, so that a tie is not misread
+				synctest.Wait()
 				if !time.Now().Before(windowEnd.Add(-time.Second)) {
 					break
 				}
 				select {
 				case <-done:
-					trace = append(trace, "refresh ended by itself")
+					if !ended {
+						trace = append(trace, "refresh ended by itself")
+					}
+					ended = true
 				default:
 				}
 				served, need = p.lookup()
@@ -104,13 +111,9 @@ func TestC08_RefreshInFlight(t *testing.T) {
 					fail = "a lookup inside the stale window was not served the stale answer while its refresh was in flight"
 					return
 				}
-				select {
-				case <-done:
-				default:
-					if need {
-						fail = "a second refresh was requested while one is in flight"
-						return
-					}
+				if !ended && need {
+					fail = "a second refresh was requested while one is in flight"
+					return
 				}
 			}
 			close(park)
